@@ -457,9 +457,13 @@ def run(tier_name=None, replay=None):
                     add(obs_valid(0, bad + c * (ln - 1)), bad + c * (ln - 1))
     n_created = 0
     seen_text = set()
-    for j, d in enumerate(create_cases(list(all_strings(2)))):
-        if not thorough and j % 3:
-            continue
+    if thorough:
+        cc = list(create_cases(list(all_strings(2))))
+    else:   # every combination of the other parts with the resources of length <= 1; the resources of length 2 under every type
+        cc = list(create_cases(list(all_strings(1)))) + [
+            d for d in create_cases([s for s in all_strings(2) if len(s) == 2])
+            if (d["partition"], d["service"], d["region"], d["account"]) == ("aws", "states", "local", "0123456789")]
+    for d in cc:
         as_dict = (n_created % 7 == 0)
         o = obs_create(0, d, as_dict)
         add(o, d, as_dict=as_dict)
